@@ -525,7 +525,7 @@ def _param_pos_sorted(ctx, f, pname, coord_text):
         for fa in facts:
             if isinstance(fa.stmt, ast.AugAssign) and \
                     isinstance(fa.stmt.op, ast.Add):
-                t = text(fa.value).replace(" ", "")
+                t = pat.inline(ctx, caller, fa.value).replace(" ", "")
                 want = "bisect.bisect_left(%s.coords[%s:],%s)" % (recv, a.id, ctext)
                 if t == want:
                     good = True
